@@ -828,6 +828,133 @@ def _xh_replay(param, model):
     return run.replay_twin(param, model)
 
 
+# ---- L12: the per-tile encoder, for every compression --------------------------------------------
+class _Blk:
+    """a numpy block stand-in: shape, dimension count, padding record, raw-bytes view"""
+
+    def __init__(self, shape, pads=None, src=None, via=()):
+        self.shape, self.pads, self.src, self.via = tuple(shape), pads, src if src is not None else self, via
+
+    @property
+    def ndim(self):
+        return len(self.shape)
+
+    @property
+    def data(self):
+        return _Raw(self)
+
+    def __getitem__(self, idx):
+        # band selection of an SYX block: (k, :, :)
+        assert isinstance(idx, tuple) and idx[1:] == (slice(None), slice(None))
+        return _Blk(self.shape[1:], self.pads, self.src, self.via + (("plane", idx[0]),))
+
+
+class _Raw(bytes):
+    """bytes(block.data): the raw bytes of a block"""
+
+    def __new__(cls, blk):
+        o = bytes.__new__(cls, b"<raw>")
+        o.blk = blk
+        return o
+
+    def __bytes__(self):
+        return self
+
+
+class _NPpad:
+    ndarray = _Blk
+
+    def __getattr__(self, k):
+        import numpy as real_np
+
+        return getattr(real_np, k)
+
+    @staticmethod
+    def pad(block, pad, mode, constant_values=None):
+        return _Blk([s_ + a + b for s_, (a, b) in zip(block.shape, pad)], (tuple(pad), mode, constant_values), block.src, block.via)
+
+
+def h_tile_compressor(axis, comp):
+    """_mk_tile_compressor(meta, plane)(block): what goes into the file for one tile is a bytes
+    object encoding the block padded on the right/bottom to the tile shape -- for every
+    compression, "none" included (tifffile registers the identity function for it)"""
+    import types
+
+    import odc.geo.cog._tifffile as tf
+
+    if symx.concrete_mode():
+        import numpy as np
+        import tifffile
+
+        h, w = int(Int("bh", 1, 16)), int(Int("bw", 1, 16))
+        ns = 1 if axis == "YX" else 3
+        from odc.geo.cog._shared import CogMeta
+        from odc.geo.types import Shape2d
+
+        meta = CogMeta(axis, Shape2d(x=16, y=16), Shape2d(x=16, y=16), ns, np.dtype("int16"), int(getattr(tifffile.COMPRESSION, {"none": "NONE", "deflate": "ADOBE_DEFLATE", "zstd": "ZSTD"}[comp])), 1)
+        shape = (h, w) if axis == "YX" else ((h, w, ns) if axis == "YXS" else (ns, h, w))
+        block = (np.arange(int(np.prod(shape))).reshape(shape) * 3 + 1).astype("int16")
+        enc = tf._mk_tile_compressor(meta, 1 if axis == "SYX" else 0)
+        out = enc(block)
+        prove("tile_is_a_bytes_object", isinstance(out, (bytes, bytearray)))
+        if not isinstance(out, (bytes, bytearray)):
+            return
+        want = block[1] if axis == "SYX" else block
+        full = np.zeros((16, 16) + ((ns,) if axis == "YXS" else ()), dtype="int16")
+        full[:h, :w] = want
+        dec = bytes(out) if comp == "none" else tifffile.TIFF.DECOMPRESSORS[meta.compression](bytes(out))
+        prove("tile_decodes_to_the_padded_block", np.array_equal(np.frombuffer(dec, dtype="int16").reshape(full.shape), full))
+        return
+    bh, bw = Int("bh", 1, 4096), Int("bw", 1, 4096)
+    th, tw = Int("th", 16, 4096), Int("tw", 16, 4096)
+    assume(And(bh <= th, bw <= tw))
+    ns = 1 if axis == "YX" else 3
+    shape = (bh, bw) if axis == "YX" else ((bh, bw, ns) if axis == "YXS" else (ns, bh, bw))
+    blk = _Blk(shape)
+    calls = []
+
+    def codec(b, **kw):
+        calls.append(b)
+        return b"<encoded>"
+
+    identity = lambda b, **kw: b  # noqa: E731  (tifffile.TIFF.COMPRESSORS[COMPRESSION.NONE])
+    table = {1: identity, 8: codec, 50000: codec}
+    code = {"none": 1, "deflate": 8, "zstd": 50000}[comp]
+    import sys
+
+    import tifffile as real_tifffile
+
+    from odc.geo.cog._shared import CogMeta
+    from odc.geo.types import Shape2d
+
+    meta = CogMeta(axis, Shape2d(x=tw, y=th), Shape2d(x=tw, y=th), ns, "int16", code, 1)
+    stub = types.ModuleType("tifffile")
+    stub.__dict__.update({k: v for k, v in real_tifffile.__dict__.items() if not k.startswith("__") or k in ("__spec__", "__file__", "__path__", "__version__")})
+    stub.TIFF = types.SimpleNamespace(COMPRESSORS=table, PREDICTORS={1: None, 2: None})
+    saved = (sys.modules["tifffile"], tf.np)
+    sys.modules["tifffile"] = stub
+    tf.np = _NPpad()
+    try:
+        enc = tf._mk_tile_compressor(meta, 1 if axis == "SYX" else 0)
+        out = enc(blk)
+    finally:
+        sys.modules["tifffile"], tf.np = saved
+    if comp == "none":
+        prove("tile_is_a_bytes_object", isinstance(out, (bytes, bytearray)))
+        tile = out.blk if isinstance(out, _Raw) else None
+    else:
+        prove("tile_is_a_bytes_object", out == b"<encoded>" and len(calls) == 1)
+        tile = calls[0] if calls else None
+    if not isinstance(tile, _Blk):
+        return
+    want_shape = (th, tw) + ((ns,) if axis == "YXS" else ())
+    prove("encoded_block_has_the_tile_shape", len(tile.shape) == len(want_shape) and And(*[a == b for a, b in zip(tile.shape, want_shape)]))
+    prove("encoded_block_is_the_callers", tile.src is blk and tile.via == ((("plane", 1),) if axis == "SYX" else ()))
+    if tile.pads is not None:
+        pads = tile.pads[0]
+        prove("padding_on_the_right_and_bottom_only", And(*[a == 0 for a, _ in pads]))
+
+
 OBLIGATIONS = [
     Ob("L1_blocksize", h_blocksize, fixed(), descr="adjust_blocksize / norm_blocksize: multiples of 16, >= requested block unless the image is smaller (then align_up(dim,16))",
        functions=("odc.geo.cog._shared.adjust_blocksize", "odc.geo.cog._shared.norm_blocksize"), bounds="block >= 1, dim >= 0 symbolic", setup=setup),
@@ -872,5 +999,9 @@ OBLIGATIONS = [
     Ob("X_crosshair_twins", None, tiered([], [dict(per_condition_timeout=20, module="twins_c04")]), custom=_xh_custom, custom_replay=_xh_replay,
        descr="second engine (thorough tier): CrossHair 0.0.110 on contract twins of adjust_blocksize, num_overviews (and Tiles.locate / region, which it does not confirm: float ceil); 'Confirmed over all paths' recorded, 'Not confirmed' ignored, a counterexample replayed",
        functions=("odc.geo.cog._shared.adjust_blocksize", "odc.geo.cog._shared.num_overviews", "odc.geo.roi.Tiles.locate"), bounds="CrossHair's own path exploration, 20 s per condition"),
+    Ob("L12_tile_compressor", h_tile_compressor, fixed(*[dict(axis=a, comp=c) for a in AX for c in ("none", "deflate", "zstd")]),
+       descr="the per-tile encoder built for every compression (none included: tifffile registers the identity for it): a bytes object encoding the caller's block (its own plane for band-first images), padded on the right/bottom to the tile shape",
+       functions=("odc.geo.cog._tifffile._mk_tile_compressor", "odc.geo.cog._tifffile._cog_block_compressor_yxs", "odc.geo.cog._tifffile._cog_block_compressor_syx"),
+       bounds="block and tile sizes symbolic (block <= tile <= 4096), three axis orders, three compressions", stubs=("block stand-in (shape, padding record, raw view)", "tifffile codec table: identity for none, a recording codec otherwise; the replay uses tifffile's own codecs"), setup=setup_tifffile),
     Ob("L6_cog_gbox_tile", h_cog_gbox_tile, fixed(), descr="cog_gbox(tile=): shape from the layout rule, grid unchanged", functions=("odc.geo.cog._shared.cog_gbox",), setup=setup, timeout_ms=20000),
 ]
